@@ -777,7 +777,11 @@ def check_cfg_linearity(
             live = live_before[succ]
             for x, use_bb in live.items():
                 use_scope = scopes[use_bb]
-                place = use_scope[x]
+                # The use recorded for `x` in `use_bb` refers to the place that flows
+                # into that BB, not to a place of the same name that `use_bb`
+                # (re)assigns later on, possibly at a different type
+                assert use_scope.parent_scope is not None
+                place = use_scope.parent_scope[x]
                 if not place.ty.copyable and (prev_use := scope.used(x)):
                     use = use_scope.used_parent[x]
                     # Special case if this is a use arising from the implicit returning
@@ -804,7 +808,15 @@ def check_cfg_linearity(
                     raise GuppyError(err)
 
         # On the other hand, unused variables that are not droppable *must* be outputted
-        for place in scope.values():
+        # Places of the parent scope that are reassigned in this BB are shadowed by the
+        # new local place (checked on its own, at its own type). Whether the old value
+        # was used before the reassignment is checked by the predecessors via liveness
+        parent_places = (
+            [p for x, p in scope.parent_scope.vars.items() if x not in scope.vars]
+            if scope.parent_scope is not None
+            else []
+        )
+        for place in [*scope.vars.values(), *parent_places]:
             for leaf in leaf_places(place):
                 x = leaf.id
                 # Some values are just in scope because the type checker determined
